@@ -42,6 +42,9 @@ def specs():
                                 kw = dict(dim=dim, codebook_dim=cd, heads=heads, separate_codebook_per_head=sep, codebook_size=K, use_cosine_sim=cosine, rotation_trick=rot,
                                           channel_last=(layout not in ('cfirst', 'single_cf')), accept_image_fmap=(layout == 'image'))
                                 S.append(dict(name='vq', kw=kw, mk=(lambda kw=kw: VectorQuantize(**kw)), layout=layout, dim=dim, trailing=[heads] if heads > 1 else [], groups=None, K=K, loss=[1]))
+                                if rot and not proj and K > 1 and cd == 2:
+                                    kw2 = dict(kw, commitment_use_cross_entropy_loss=True)
+                                    S.append(dict(name='vq', kw=kw2, mk=(lambda kw=kw2: VectorQuantize(**kw)), layout=layout, dim=dim, trailing=[heads] if heads > 1 else [], groups=None, K=K, loss=[1]))
     for nq in (1, 3):
         for layout in ('seq', 'image'):
             for shared in (False, True):
